@@ -27,6 +27,17 @@ func (u *Universe) equivV(d *Desc, a, b *V) bool {
 		}
 		return bytes.Equal(a.Sub[0].B, b.Sub[0].B) && a.Sub[0].Neg == b.Sub[0].Neg
 	case 'P':
+		if !u.nilEmpty(d.Sub[0]) {
+			// a nil pointer to a type whose zero value does not encode as an empty item (int: "0", time, map, interface)
+			// is written as that zero value and comes back as a pointer to it
+			if a.K == 'n' {
+				return b.K == 'p' && u.isZeroV(d.Sub[0], b.Sub[0])
+			}
+			if b.K == 'n' {
+				return false
+			}
+			return u.equivV(d.Sub[0], a.Sub[0], b.Sub[0])
+		}
 		ea := a.K == 'n' || u.emptyEnc(d.Sub[0], a.Sub[0])
 		eb := b.K == 'n' || u.emptyEnc(d.Sub[0], b.Sub[0])
 		if ea || eb {
@@ -90,7 +101,7 @@ func (u *Universe) emptyEnc(d *Desc, v *V) bool {
 	switch d.K {
 	case '@':
 		return u.emptyEnc(u.Defs[d.N], v)
-	case 'u':
+	case 'u', 'F':
 		return v.U == 0
 	case 'b':
 		return v.K == 'f'
@@ -123,4 +134,21 @@ func (u *Universe) nilEmpty(d *Desc) bool {
 		return false
 	}
 	return true
+}
+
+// isZeroV: v is the zero value of d (for the kinds whose nil pointer is written as the zero value)
+func (u *Universe) isZeroV(d *Desc, v *V) bool {
+	switch d.K {
+	case '@':
+		return u.isZeroV(u.Defs[d.N], v)
+	case 'i':
+		return v.K == 'i' && v.I == 0
+	case 'T':
+		return v.K == 'T' && v.Sec == -62135596800 && v.Nsec == 0
+	case 'M':
+		return v.K == 'm' && len(v.Keys) == 0
+	case 'I':
+		return v.K == 'n'
+	}
+	return false
 }
